@@ -223,14 +223,34 @@ impl World {
             // another port of this instance: lower or higher port number than the receiver
             src.port = if t.bool() { 0 } else { *t.pick(&[1u16, 2, 3, 9]) };
         }
-        let e = self.ann_seq.entry((mi, p)).or_insert_with(|| 0);
-        let seq = match t.weighted(&[10, 1, 1]) {
+        if !self.ann_seq.contains_key(&(mi, p)) {
+            // first sequence id of this master on this port: just below one of the 16-bit boundaries, or anywhere
+            let first = match t.weighted(&[3, 2, 2, 1]) {
+                0 => 0,
+                1 => 0x7ffd + t.below(3) as u16,
+                2 => 0xfffd + t.below(3) as u16,
+                _ => t.below(0x10000) as u16,
+            };
+            self.ann_seq.insert((mi, p), first);
+        }
+        let e = self.ann_seq.get_mut(&(mi, p)).unwrap();
+        let seq = match t.weighted(&[20, 2, 2, 1]) {
             0 => {
                 *e = e.wrapping_add(1);
                 *e
             }
             1 => *e,                // duplicate
-            _ => e.wrapping_sub(3), // stale
+            2 => e.wrapping_sub(3), // stale
+            _ => {
+                // a jump (restarted or forged sender): far behind, far ahead, or across the signed boundary
+                *e = match t.below(4) {
+                    0 => e.wrapping_add(0x7fff),
+                    1 => e.wrapping_add(0x8000),
+                    2 => e.wrapping_sub(0x7fff),
+                    _ => t.below(0x10000) as u16,
+                };
+                *e
+            }
         };
         let mut ann = m.ann;
         if prof.extreme && t.chance(1, 4) {
@@ -332,7 +352,11 @@ impl World {
 
     pub fn sync(&mut self, t: &mut Tape, p: usize, prof: &Profile) -> COp {
         let (mi, src) = self.sync_source(t, p);
-        let e = self.sync_seq.entry((mi, p)).or_insert(100);
+        if !self.sync_seq.contains_key(&(mi, p)) {
+            let first = *t.pick(&[100u16, 0x7ffd, 0xfffd, 0xfffe]);
+            self.sync_seq.insert((mi, p), first);
+        }
+        let e = self.sync_seq.get_mut(&(mi, p)).unwrap();
         *e = e.wrapping_add(1);
         let seq = *e;
         let two = !t.chance(1, 4);
